@@ -1,7 +1,8 @@
 (* Stream.v — C13: executable model of the frame stream between a reader thread
    and the inference loop (definitions only; all proofs are in C13/Lemmas.v).
 
-   Code modelled (sleap_nn, unchanged):
+   Code modelled (sleap_nn; the reader loops are the same in the pinned tree and in the current tree,
+   which additionally has fix 061a599 in LabelsReader.run, see Poll.labels_cfg):
 
      providers.VideoReader.run / LabelsReader.run            (thread "P")
          try:
@@ -41,13 +42,26 @@ Open Scope nat_scope.
 (* ------------------------------------------------------------------------ *)
 (* states                                                                     *)
 
-Inductive item := Frame (i : nat) | Sentinel.
+(* what a frame item carries besides its index: orig_size = (height, width) and video_idx
+   (review round 4, finding 2: until then an item was its index, so "each with its own original
+   size" had no counterpart in the model).  The reader computes the payload from the frame it has
+   just read (`src c i`: the size of image i and the video it belongs to, a parameter of the
+   configuration); the item keeps it through the queue; that every item taken by the consumer
+   carries the payload of ITS OWN index is a theorem (Lemmas.inv_stream, c13_final_state). *)
+Definition payload := (nat * nat * nat)%type.
+Definition pl0 : payload := (0, 0, 0).
+Definition pl_eqb (a b : payload) : bool :=
+  let '(h1, w1, v1) := a in
+  let '(h2, w2, v2) := b in
+  (h1 =? h2) && (w1 =? w2) && (v1 =? v2).
+
+Inductive item := Frame (i : nat) (p : payload) | Sentinel.
 
 (* producer program counter *)
 Inductive ppc :=
 | PIdle                (* thread not started yet *)
 | PLoop (i : nat)      (* at the head of the for loop, next index i (range test, then video[i]) *)
-| PPut (i : nat)       (* frame i read, about to put it *)
+| PPut (i : nat) (p : payload)   (* frame i read (payload p computed from it), about to put it *)
 | PSent                (* in the finally block, about to put the marker *)
 | PDone.               (* run() returned: the thread is dead, join() returns *)
 
@@ -59,13 +73,19 @@ Inductive cpc :=
 | CJoin                                (* while loop left; at pipeline.join() *)
 | CFinished.
 
-Record cfg := mkCfg {
+Record cfg := mkCfgS {
   start_ : nat;           (* first index *)
   end_   : nat;           (* one past the last index (end < start behaves like an empty range) *)
   cap    : nat;           (* queue maxsize; 0 = unbounded, as in queue.Queue *)
   batch  : nat;           (* preprocess_config["batch_size"] *)
-  fault  : option nat     (* index whose read raises, if any *)
+  fault  : option nat;    (* index whose read raises, if any *)
+  src    : nat -> payload (* the data source: size of frame i and index of its video *)
 }.
+(* a configuration whose source gives every frame the same payload (examples; payloads play no role) *)
+Notation mkCfg a b c d e := (mkCfgS a b c d e (fun _ => pl0)).
+
+(* the item the reader builds from frame i *)
+Definition fr (c : cfg) (i : nat) : item := Frame i (src c i).
 
 Record st := mkSt {
   pp      : ppc;
@@ -115,9 +135,9 @@ Definition do_process (c : cfg) (s : st) (acc : list nat) : st :=
 
 Inductive event :=
 | EvStart
-| EvReadOk (i : nat) | EvReadFail (i : nat)
-| EvPut (i : nat) | EvPutSent
-| EvGet (i : nat) | EvGetSent
+| EvReadOk (i : nat) | EvReadFail (i : nat)   (* see the note on iteration failures below *)
+| EvPut (i : nat) (p : payload) | EvPutSent
+| EvGet (i : nat) (p : payload) | EvGetSent
 | EvYield (b : list nat)
 | EvJoin.
 
@@ -125,28 +145,35 @@ Inductive event :=
 Definition yield_label (acc : list nat) : option event :=
   match acc with [] => None | _ => Some (EvYield acc) end.
 
+(* Iteration failures.  `is_fault c i` stands for "iteration i of the loop raises an Exception before
+   its put": the read `video[i]` / `labels[i]` / `lf.image` itself (undecodable frame, index past the end
+   of the video), or any statement between the read and the put (np.transpose, np.stack of the pinned
+   LabelsReader = F130, videos.index).  All of them leave the try block the same way and frame i is not
+   put, so the LTS has the single rule l_read_fail (PLoop i -> PSent) and no rule PPut i -> PSent; the
+   harness reports a read that is not followed by its put as EvReadFail i (review round 4, finding 7:
+   EvReadOk i / EvReadFail i mean "iteration i reached / did not reach its put"). *)
 Inductive lstep (c : cfg) : option event -> st -> st -> Prop :=
 | l_start : forall s,
     pp s = PIdle -> cc s = CStart ->
     lstep c (Some EvStart) s (do_start c s)
 | l_read_ok : forall s i,
     pp s = PLoop i -> i < end_ c -> is_fault c i = false ->
-    lstep c (Some (EvReadOk i)) s (set_pp s (PPut i))
+    lstep c (Some (EvReadOk i)) s (set_pp s (PPut i (src c i)))
 | l_read_fail : forall s i,             (* except Exception: log; then finally *)
     pp s = PLoop i -> i < end_ c -> is_fault c i = true ->
     lstep c (Some (EvReadFail i)) s (set_pp s PSent)
 | l_loop_end : forall s i,              (* range exhausted; then finally *)
     pp s = PLoop i -> end_ c <= i ->
     lstep c None s (set_pp s PSent)
-| l_put : forall s i,                   (* enabled iff the queue is not full *)
-    pp s = PPut i -> full c (q s) = false ->
-    lstep c (Some (EvPut i)) s (do_put s (Frame i) (PLoop (S i)))
+| l_put : forall s i p,                 (* enabled iff the queue is not full *)
+    pp s = PPut i p -> full c (q s) = false ->
+    lstep c (Some (EvPut i p)) s (do_put s (Frame i p) (PLoop (S i)))
 | l_put_sentinel : forall s,
     pp s = PSent -> full c (q s) = false ->
     lstep c (Some EvPutSent) s (do_put s Sentinel PDone)
-| l_get_frame : forall s k acc i r,     (* enabled iff the queue is not empty *)
-    cc s = CCollect (S k) acc -> q s = Frame i :: r ->
-    lstep c (Some (EvGet i)) s (do_get s (Frame i) r (enter_for k (acc ++ [i])) (done_ s))
+| l_get_frame : forall s k acc i p r,   (* enabled iff the queue is not empty *)
+    cc s = CCollect (S k) acc -> q s = Frame i p :: r ->
+    lstep c (Some (EvGet i p)) s (do_get s (Frame i p) r (enter_for k (acc ++ [i])) (done_ s))
 | l_get_sentinel : forall s k acc r,    (* done = True; break *)
     cc s = CCollect (S k) acc -> q s = Sentinel :: r ->
     lstep c (Some EvGetSent) s (do_get s Sentinel r (CProcess acc) true)
@@ -184,7 +211,9 @@ Definition stop (c : cfg) : nat :=
 (* the frames that must be delivered, in order *)
 Definition delivered (c : cfg) : list nat := seq (start_ c) (stop c - start_ c).
 
-(* consecutive batches of size b, the last one possibly shorter (never empty) *)
+(* consecutive batches of size b, the last one possibly shorter (never empty).  Totalised by fuel:
+   for b = 0 the value is an artefact (chunks 0 [1;2;3] = [[];[];[]]); every theorem that mentions
+   `chunks` has 0 < batch c / 1 <= b, and the harness evaluates it with batch >= 1 only. *)
 Fixpoint chunks_fuel (fuel b : nat) (l : list nat) : list (list nat) :=
   match fuel with
   | 0 => []
@@ -199,25 +228,25 @@ Definition chunks (b : nat) (l : list nat) : list (list nat) := chunks_fuel (len
 Fixpoint frames (l : list item) : list nat :=
   match l with
   | [] => []
-  | Frame i :: t => i :: frames t
+  | Frame i _ :: t => i :: frames t
   | Sentinel :: t => frames t
   end.
 Fixpoint sentinels (l : list item) : nat :=
   match l with
   | [] => 0
-  | Frame _ :: t => sentinels t
+  | Frame _ _ :: t => sentinels t
   | Sentinel :: t => S (sentinels t)
   end.
 Definition coll (k : cpc) : list nat :=
   match k with CCollect _ acc | CProcess acc => acc | _ => [] end.
 Definition collecting (s : st) : list nat := coll (cc s).
 Definition in_flight (s : st) : list nat :=
-  match pp s with PPut i => [i] | _ => [] end.
+  match pp s with PPut i _ => [i] | _ => [] end.
 Definition unread (c : cfg) (s : st) : list nat :=
   match pp s with
   | PIdle => delivered c
   | PLoop i => seq i (stop c - i)
-  | PPut i => seq (S i) (stop c - S i)
+  | PPut i _ => seq (S i) (stop c - S i)
   | _ => []
   end.
 (* markers in the system: seen by the consumer + in the queue *)
@@ -229,7 +258,7 @@ Definition mp (c : cfg) (p : ppc) : nat :=
   match p with
   | PIdle => 4 * (end_ c - start_ c) + 5
   | PLoop i => 4 * (end_ c - i) + 4
-  | PPut i => 4 * (end_ c - S i) + 7
+  | PPut i _ => 4 * (end_ c - S i) + 7
   | PSent => 3
   | PDone => 0
   end.
@@ -269,7 +298,7 @@ Definition exec1 (c : cfg) (s : st) (e : event) : option st :=
   | EvReadOk i =>
       match pp s with
       | PLoop j => if (i =? j) && (i <? end_ c) && negb (is_fault c i)
-                   then Some (set_pp s (PPut i)) else None
+                   then Some (set_pp s (PPut i (src c i))) else None
       | _ => None
       end
   | EvReadFail i =>
@@ -278,10 +307,10 @@ Definition exec1 (c : cfg) (s : st) (e : event) : option st :=
                    then Some (set_pp s PSent) else None
       | _ => None
       end
-  | EvPut i =>
+  | EvPut i p =>          (* the item put must carry the payload the model computed from frame i *)
       match pp s with
-      | PPut j => if (i =? j) && negb (full c (q s))
-                  then Some (do_put s (Frame i) (PLoop (S i))) else None
+      | PPut j p' => if (i =? j) && pl_eqb p p' && negb (full c (q s))
+                     then Some (do_put s (Frame i p) (PLoop (S i))) else None
       | _ => None
       end
   | EvPutSent =>
@@ -290,11 +319,12 @@ Definition exec1 (c : cfg) (s : st) (e : event) : option st :=
       | PSent => if negb (full c (q s)) then Some (do_put s Sentinel PDone) else None
       | _ => None
       end
-  | EvGet i =>
+  | EvGet i p =>
       let s := tau_c c s in
       match cc s, q s with
-      | CCollect (S k) acc, Frame j :: r =>
-          if i =? j then Some (do_get s (Frame i) r (enter_for k (acc ++ [i])) (done_ s)) else None
+      | CCollect (S k) acc, Frame j p' :: r =>
+          if (i =? j) && pl_eqb p p'
+          then Some (do_get s (Frame i p) r (enter_for k (acc ++ [i])) (done_ s)) else None
       | _, _ => None
       end
   | EvGetSent =>
@@ -341,7 +371,7 @@ Fixpoint run_diag (c : cfg) (s : st) (tr : list event) (n : nat) (seen : list st
   | e :: t =>
       let sp := match e with
                 | EvPutSent => tau_p c s
-                | EvGet _ | EvGetSent | EvJoin => tau_c c s
+                | EvGet _ _ | EvGetSent | EvJoin => tau_c c s
                 | _ => s
                 end in
       match exec1 c s e with
@@ -354,9 +384,9 @@ Fixpoint run_diag (c : cfg) (s : st) (tr : list event) (n : nat) (seen : list st
    pp tag [index]; queue length; queue items (0 = marker, i+1 = frame i); cc tag [k; |acc|; acc]; done *)
 Definition skey (s : st) : list nat :=
   (match pp s with
-   | PIdle => [0] | PLoop i => [1; i] | PPut i => [2; i] | PSent => [3] | PDone => [4]
+   | PIdle => [0] | PLoop i => [1; i] | PPut i _ => [2; i] | PSent => [3] | PDone => [4]
    end)
-  ++ length (q s) :: map (fun x => match x with Sentinel => 0 | Frame i => S i end) (q s)
+  ++ length (q s) :: map (fun x => match x with Sentinel => 0 | Frame i _ => S i end) (q s)
   ++ (match cc s with
       | CStart => [0]
       | CCollect k acc => 1 :: k :: length acc :: acc
@@ -416,7 +446,9 @@ Definition rgroup (g : group_verdict) : rdr := fun k =>
 Close Scope string_scope.
 
 (* ------------------------------------------------------------------------ *)
-(* control skeleton of the three functions (static tie, see translator/c13_skel2coq.py)
+(* control skeleton of the three functions (static tie, see translator/c13_skel2coq.py).
+   NOTE: `sk` has no semantics in Coq; `skeletons_match` is syntactic equality with the constants
+   `modelled_*`, and the skeleton -> rule table below is documentation, not a theorem (trusted).
 
    The translator regenerates terms of this type from /repo's source on every
    run (Gen/C13_Skel.v); the per-run obligation is equality with the skeletons
